@@ -81,8 +81,11 @@ VAROPS = {
     # D$(3) is a run-time empty string: it shares its address with the string stored just before it
     'aD': 'DIM D$(3):D$(1)="p":D$(2)="q"+"r":D$(3)=LEFT$(D$(2),0)',
     'aE': 'DIM E!(1,2):E!(1,2)=2.5:E!(1,1)=7',
+    # a string that lives in the record buffer of an open random file (chain leg only)
+    'sF': 'OPEN "R.DAT" AS 1 LEN=8:FIELD 1,8 AS B$:LSET B$="HELLO"',
 }
 VARORDER = ['sA', 'sI', 'sD', 'sB', 'sH', 'sL', 'gc', 'sE', 'aC', 'aD', 'aE']
+CHAIN_VARORDER = VARORDER + ['sF']
 
 
 def _apply_varop(m, op, base):
@@ -105,6 +108,8 @@ def _apply_varop(m, op, base):
     elif op == 'sE':
         sc['B$'] = b'heap'
         sc['L$'] = b''
+    elif op == 'sF':
+        sc['B$'] = b'HELLO   '
     elif op == 'aC':
         v = [0, 11, 0, 33]
         ar['C%'] = v[base:]
@@ -580,7 +585,7 @@ def legs(ctx):
     d = 2 if ctx.quick else 3
     orders = []
     for n in range(d + 1):
-        orders.extend(permutations(VARORDER, n))
+        orders.extend(permutations(CHAIN_VARORDER, n))
     ccases = []
     for order in orders:
         for ci in range(len(COMMONS)):
@@ -598,7 +603,7 @@ def legs(ctx):
                 ccases.append((order, ci, chi, base, tight, extras))
     out.append(Leg('chain', list(chunked(ccases, 60 if ctx.quick else 200)), work_chain, exhaustive=True,
                    bound='all %d ordered histories of <=%d of %d variable operations x %d COMMON lists x %s' % (
-                       len(orders), d, len(VARORDER), len(COMMONS),
+                       len(orders), d, len(CHAIN_VARORDER), len(COMMONS),
                        '5-8 (CHAIN form, OPTION BASE, memory) combinations' if ctx.quick else
                        '21 (CHAIN form, OPTION BASE, memory normal/600/330 bytes free) combinations (+ DEF FN/'
                        'DEFtype extras for histories <=1') + '; %d cases' % len(ccases)))
